@@ -70,7 +70,7 @@ fn main() {
                 // xv <anything> --gen-corpus <target> <dir>: small valid seed inputs for a fuzz target
                 let target = args.get(i + 1).cloned().unwrap_or_else(|| usage());
                 let dir = PathBuf::from(args.get(i + 2).cloned().unwrap_or_else(|| usage()));
-                gen_corpus(&target, &dir);
+                xv::fuzzdrv::gen_corpus(&target, &dir, seed);
                 return;
             },
             "--crash-child" => {
@@ -128,7 +128,9 @@ fn main() {
         }
         let mut ctx = Ctx::new(&id, tier, seed, def.level);
         ctx.replay = Some(rf);
-        (def.run)(&ctx);
+        if !xv::fuzzdrv::replay(&ctx) {
+            (def.run)(&ctx);
+        }
         let code = ctx.finish(def.rule, def.assumptions);
         std::process::exit(code);
     }
@@ -146,51 +148,25 @@ fn main() {
         std::process::exit(0);
     }
     (def.run)(&ctx);
+    // thorough tier: coverage-guided campaign on the property's libFuzzer target, same oracles
+    if let Some(plan) = fuzz_plan(&id) {
+        xv::fuzzdrv::campaign(&ctx, plan);
+    }
     let code = ctx.finish(def.rule, def.assumptions);
     std::process::exit(code);
 }
 
-fn gen_corpus(target: &str, dir: &std::path::Path) {
-    use xv::engine::{draw, Sm64};
-    std::fs::create_dir_all(dir).expect("corpus dir");
-    match target {
-        "xorb_validate" => {
-            for k in 0..24u64 {
-                let spec = draw(&xv::gen::xorb::xorb_spec_strategy(5, false), 1000 + k);
-                if let Ok(b) = xv::gen::xorb::build(&spec) {
-                    if b.bytes.len() > 200_000 {
-                        continue;
-                    }
-                    // own hash + selector 0, then the object; and a variant without footer
-                    let mut v = b.hash.to_vec();
-                    v.push(0);
-                    v.extend_from_slice(&b.bytes);
-                    std::fs::write(dir.join(format!("valid-{k}")), &v).unwrap();
-                    let parsed = xv::refs::xorb::parse(&b.bytes).unwrap();
-                    let mut w = b.hash.to_vec();
-                    w.push(1);
-                    w.extend_from_slice(&b.bytes[..parsed.content_end]);
-                    std::fs::write(dir.join(format!("nofooter-{k}")), &w).unwrap();
-                }
-            }
-        },
-        "xorb_roundtrip" | "chunker_diff" | "hash_text" | "sorted_search" => {
-            for k in 0..16u64 {
-                let n = 16 + (k * 997 % 6000) as usize;
-                let mut v = vec![(k % 4) as u8, (k % 9) as u8, 3];
-                v.extend(Sm64(k).bytes(n));
-                if k % 3 == 0 {
-                    // low-entropy variant
-                    for b in v.iter_mut().skip(8) {
-                        *b &= 0x11;
-                    }
-                }
-                std::fs::write(dir.join(format!("seed-{k}")), &v).unwrap();
-            }
-            if target == "hash_text" {
-                std::fs::write(dir.join("hex"), "00112233445566778899aabbccddeeff00112233445566778899AABBCCDDEEFF").unwrap();
-            }
-        },
-        _ => {},
+fn fuzz_plan(id: &str) -> Option<xv::fuzzdrv::FuzzPlan> {
+    use xv::fuzzdrv::FuzzPlan;
+    let scale: u64 = std::env::var("XV_FUZZ_SCALE").ok().and_then(|s| s.parse().ok()).unwrap_or(100);
+    let p = |target, runs: u64, max_len| Some(FuzzPlan { target, runs: (runs * scale / 100).max(1000), max_len, jobs: 8 });
+    match id {
+        "C04" => p("chunker_diff", 1_500_000, 40_000),
+        "C06" => p("hash_text", 20_000_000, 1_024),
+        "C07" => p("xorb_roundtrip", 250_000, 40_000),
+        "C08" => p("xorb_validate", 250_000, 150_000),
+        "C09" => p("sorted_search", 120_000, 1_024),
+        _ => None,
     }
 }
+
